@@ -201,7 +201,128 @@ def run(ctx):
                 res.mismatches.append({"route": route, "case": case, "d": d, "model_d": exp_d,
                                        "matrix_equal": mat_equal(mat, exp_m)})
         res.sample({"case": case, "model_d": exp_d, "neg": out["neg"]}, limit=4)
+    lib = native.load("plain")
+    layout_part(ctx, res, lib)
+    compact_part(ctx, res, lib, cases, outs)
     return res
+
+
+def layout_part(ctx, res, lib):
+    """exhaustive comparison of the compact-layout arithmetic (dtw_wps_parts / loc / loc_columns / width / length)"""
+    maxl = 16 if ctx.thorough else 9
+    combos = [(l1, l2, w) for l1 in range(1, maxl + 1) for l2 in range(1, maxl + 1)
+              for w in range(0, max(l1, l2) + 2)]
+    outs = ctx.driver.run([{"op": "parts", "l1": a, "l2": b, "window": w} for a, b, w in combos])
+    cells = 0
+    for (l1, l2, w), out in zip(combos, outs):
+        s = lib.dtw_settings_default()
+        s.window = w
+        p = lib.dtw_wps_parts(l1, l2, C.byref(s))
+        got = {k: getattr(p, k) for k in ("ldiff", "ldiffr", "ldiffc", "window", "width", "length", "ri1", "ri2", "ri3")}
+        got["ol"], got["or"] = p.overlap_left_ri, p.overlap_right_ri
+        exp = {k: out[k] for k in got}
+        res.evaluations += 1
+        key = ("layout", l1, l2, w)
+        if w and w < max(l1, l2):
+            res.nontrivial.add(repr(key))
+        bad = None
+        if got != exp:
+            bad = {"what": "dtw_wps_parts", "impl": got, "model": exp}
+        elif lib.dtw_settings_wps_width(l1, l2, C.byref(s)) != exp["width"] or \
+                lib.dtw_settings_wps_length(l1, l2, C.byref(s)) != exp["length"]:
+            bad = {"what": "dtw_settings_wps_width/length"}
+        else:
+            for r in range(1, l1 + 1):
+                cb, ce = native.idx_t(-7), native.idx_t(-7)
+                base = lib.dtw_wps_loc_columns(C.byref(p), r, C.byref(cb), C.byref(ce), l1, l2)
+                mb, mcb, mce = out["rows"][r - 1]
+                if (base, cb.value, ce.value) != (mb, mcb, mce):
+                    bad = {"what": "dtw_wps_loc_columns", "row": r, "impl": [base, cb.value, ce.value], "model": [mb, mcb, mce]}
+                    break
+                # stored cells stay inside their own compact row and inside the buffer
+                hi = min(mce, l2 + 1)
+                if not (r * exp["width"] <= mb and mb + (hi - mcb) <= (r + 1) * exp["width"]):
+                    res.violations.append({"clause": "compact row exceeds its row of the advertised buffer",
+                                           "l1": l1, "l2": l2, "window": w, "row": r, "loc_columns": [mb, mcb, mce]})
+                for c in range(mcb, hi):
+                    cells += 1
+                    if lib.dtw_wps_loc(C.byref(p), r, c, l1, l2) != mb + (c - mcb):
+                        bad = {"what": "dtw_wps_loc", "cell": [r, c]}
+                        break
+                if bad:
+                    break
+        if bad:
+            res.mismatches.append(dict(bad, l1=l1, l2=l2, window=w))
+    res.coverage["layout_combos"] = len(combos)
+    res.coverage["layout_cells"] = cells
+    res.coverage["layout_exhaustive_upto"] = maxl
+
+
+def compact_part(ctx, res, lib, cases, outs):
+    """C kernel into an exactly sized compact buffer with red zones -> model expansion / C expansion / slices"""
+    rng = ctx.rng
+    RZ = 16
+    SENT = -12345.25
+    ops, meta = [], []
+    for case, out in zip(cases, outs):
+        if case.get("ndim", 1) != 1:
+            continue
+        r, c = dc.npoints(case)
+        s = native.settings_from_case(case)
+        length = lib.dtw_settings_wps_length(r, c, C.byref(s))
+        buf = np.full(length + 2 * RZ, SENT)
+        a = native.darr(case["s1"]); b = native.darr(case["s2"])
+        wps_ptr = buf[RZ:].ctypes.data_as(C.POINTER(C.c_double))
+        fn = lib.dtw_warping_paths_euclidean if case.get("inner") == "abs" else lib.dtw_warping_paths
+        fn(wps_ptr, a, r, b, c, True, True, False, C.byref(s))
+        res.evaluations += 1
+        if not (np.all(buf[:RZ] == SENT) and np.all(buf[RZ + length:] == SENT)):
+            res.violations.append({"clause": "C kernel wrote outside the compact buffer of the advertised size",
+                                   "case": case, "length": int(length)})
+            continue
+        comp = buf[RZ:RZ + length]
+        # full matrix through C expansion
+        full = np.full((r + 1) * (c + 1) + 2 * RZ, SENT)
+        lib.dtw_expand_wps(wps_ptr, full[RZ:].ctypes.data_as(C.POINTER(C.c_double)), r, c, C.byref(s))
+        if not (np.all(full[:RZ] == SENT) and np.all(full[RZ + (r + 1) * (c + 1):] == SENT)):
+            res.violations.append({"clause": "dtw_expand_wps wrote outside the full matrix", "case": case})
+            continue
+        fullm = full[RZ:RZ + (r + 1) * (c + 1)].reshape((r + 1, c + 1))
+        bad = property_cells(case, out, fullm, True, False, None)
+        if bad:
+            res.violations.append({"clause": "compact kernel + dtw_expand_wps: cell-wise optimal", "case": case,
+                                   "bad_cells": bad[:6]})
+            continue
+        # a few slices through C, compared with the sub-matrix
+        for _ in range(3):
+            rb = rng.randint(0, r); re_ = rng.randint(rb + 1, r + 1)
+            cb = rng.randint(0, c); ce = rng.randint(cb + 1, c + 1)
+            n = (re_ - rb) * (ce - cb)
+            sl = np.full(n + 2 * RZ, SENT)
+            lib.dtw_expand_wps_slice(wps_ptr, sl[RZ:].ctypes.data_as(C.POINTER(C.c_double)), r, c, rb, re_, cb, ce,
+                                     C.byref(s))
+            res.evaluations += 1
+            if not (np.all(sl[:RZ] == SENT) and np.all(sl[RZ + n:] == SENT)):
+                res.violations.append({"clause": "dtw_expand_wps_slice wrote outside the slice buffer",
+                                       "case": case, "slice": [rb, re_, cb, ce]})
+                break
+            got = sl[RZ:RZ + n].reshape((re_ - rb, ce - cb))
+            if not mat_equal(got, fullm[rb:re_, cb:ce]):
+                res.violations.append({"clause": "slice expansion equals the sub-matrix of the full expansion",
+                                       "case": case, "slice": [rb, re_, cb, ce]})
+                break
+            if rb > 0:
+                res.hit("slice_rb>0")
+        # model expansion of the implementation's compact buffer
+        p = dc.psi_tuple(case.get("psi"))
+        ops.append({"op": "expand", "l1": r, "l2": c, "window": case.get("window") or 0, "psi1b": p[0], "psi2b": p[2],
+                    "wps": [("inf" if math.isinf(x) else int(x)) for x in comp], "slice": [0, r + 1, 0, c + 1]})
+        meta.append((case, fullm))
+    for (case, fullm), o in zip(meta, ctx.driver.run(ops)):
+        m = np.array([[INF if x == "inf" else float(x) for x in row] for row in o["mat"]])
+        if not mat_equal(m, fullm):
+            res.mismatches.append({"what": "model expandSlice vs dtw_expand_wps", "case": case})
+    res.coverage["compact_cases"] = len(meta)
 
 
 def same(a, b):
